@@ -76,3 +76,87 @@ def conjuncts(test):
 
 def parse_cond(text):
     return conjuncts(ast.parse(text, mode="eval").body)
+
+
+# ---------------------------------------------------------------------------------------------------------------
+# memo slots: "this statement runs only when self.<slot> is known to be None"
+# ---------------------------------------------------------------------------------------------------------------
+def _slot_expr(e, slot, selfname, aliases):
+    """does expression e denote self.<slot> (directly, through getattr(self, '<slot>', None), or through a local alias)?"""
+    if isinstance(e, ast.Attribute) and e.attr == slot and isinstance(e.value, ast.Name) and e.value.id == selfname:
+        return True
+    if isinstance(e, ast.Call) and isinstance(e.func, ast.Name) and e.func.id == "getattr" and len(e.args) >= 2 \
+            and isinstance(e.args[0], ast.Name) and e.args[0].id == selfname and isinstance(e.args[1], ast.Constant) and e.args[1].value == slot:
+        return True
+    if isinstance(e, ast.Name) and e.id in aliases:
+        return True
+    return False
+
+
+def _none_test(test, slot, selfname, aliases):
+    """+1: test is true iff the slot is None; -1: true iff it is not None; 0: neither"""
+    if isinstance(test, ast.Compare) and len(test.ops) == 1 and isinstance(test.comparators[0], ast.Constant) \
+            and test.comparators[0].value is None and _slot_expr(test.left, slot, selfname, aliases):
+        if isinstance(test.ops[0], ast.Is):
+            return 1
+        if isinstance(test.ops[0], ast.IsNot):
+            return -1
+    if isinstance(test, ast.UnaryOp) and isinstance(test.op, ast.Not):
+        return -_none_test(test.operand, slot, selfname, aliases)
+    return 0
+
+
+def _exits(stmts):
+    if not stmts:
+        return False
+    last = stmts[-1]
+    if isinstance(last, (ast.Return, ast.Raise)):
+        return True
+    if isinstance(last, ast.If):
+        return _exits(last.body) and _exits(last.orelse)
+    return False
+
+
+def memo_aliases(fnode, slot, selfname):
+    """local names bound (once) to the current value of self.<slot>"""
+    out = set()
+    for n in ast.walk(fnode):
+        if isinstance(n, ast.Assign) and len(n.targets) == 1 and isinstance(n.targets[0], ast.Name) \
+                and _slot_expr(n.value, slot, selfname, ()):
+            out.add(n.targets[0].id)
+    return out
+
+
+def memo_dominated(fnode, target, slot, selfname):
+    """True when `target` (a statement) is executed only on paths where self.<slot> is known to be None: it sits in the
+    true branch of an is-None test of the slot (or the false branch of an is-not-None test), or an earlier statement of an
+    enclosing block returns whenever the slot is not None."""
+    aliases = memo_aliases(fnode, slot, selfname)
+
+    def rec(stmts, known):
+        for i, s in enumerate(stmts):
+            if s is target:
+                return known
+            if isinstance(s, ast.If):
+                k = _none_test(s.test, slot, selfname, aliases)
+                if any(x is target for b in s.body for x in ast.walk(b)):
+                    return rec(s.body, known or k == 1)
+                if any(x is target for b in s.orelse for x in ast.walk(b)):
+                    return rec(s.orelse, known or k == -1)
+                if k == -1 and _exits(s.body):
+                    known = True
+                if k == 1 and s.orelse and _exits(s.orelse):
+                    known = True
+                continue
+            for name in ("body", "orelse", "finalbody"):
+                sub = getattr(s, name, None)
+                if isinstance(sub, list) and any(x is target for b in sub for x in ast.walk(b)):
+                    return rec(sub, known)
+            for h in getattr(s, "handlers", []):
+                if any(x is target for b in h.body for x in ast.walk(b)):
+                    return rec(h.body, known)
+            if any(x is target for x in ast.walk(s)):
+                return known
+        return False
+
+    return rec(fnode.body, False)
